@@ -853,6 +853,59 @@ PROPS["C09"] = {
                  "witnesses) about a hand-written model + differential correspondence through cfg-guarded hooks and DetailedGridInfo",
 }
 
+# ---------------------------------------------------------------------------------------------------------
+# Tier T, typed translation (extract/src/{expr,stmt,emit,lean}.rs + one module per source file): small pure functions of
+# cache.rs, available_space.rs, layout.rs, geometry.rs, style_helpers.rs, util/{sys,math,resolve}.rs are translated into
+# Generated/*.lean on every run; Props/Tie*.lean prove generated = hand-written model definition, for every [Num α].
+# These equalities are obligations of every check whose theorems are about those model definitions.
+TIE_CACHE = ["TieCache." + t for t in (
+    "cache_size_eq optEq_eq avEq_minContent is_roughly_equal_eq slot_eq get_final_compatible_eq "
+    "get_measure_compatible_eq from_outer_size_eq new_eq get_eq store_eq clear_eq is_empty_eq").split()]
+TIE_LAYOUT = ["TieLayout." + t for t in (
+    "f32_max_eq f32_min_eq abs_eq round_eq floor_eq ceil_eq margin_zero_eq from_margin_eq collapse_with_margin_eq "
+    "collapse_with_set_eq margin_resolve_eq hidden_eq default_eq from_sizes_and_baselines_eq from_sizes_eq "
+    "from_outer_size_eq layout_with_order_eq layout_new_eq horizontal_axis_sum_eq vertical_axis_sum_eq sum_axes_eq "
+    "size_f32_max_eq size_f32_min_eq maybe_apply_aspect_ratio_eq size_unwrap_or_eq size_or_eq both_axis_defined_eq "
+    "size_zero_eq size_ZERO_eq size_NONE_eq rect_zero_eq rect_ZERO_eq into_option_eq maybe_set_eq is_definite_eq "
+    "av_unwrap_or_eq").split()]
+TIE_MAYBEMATH = (["TieMaybeMath.%s_%s_eq" % (p, o) for p in ("oo", "of", "fo", "af", "ao")
+                  for o in ("min", "max", "clamp", "add", "sub")]
+                 + ["TieMaybeMath.size_%s_eq" % l for l in (
+                     "oo_add oo_sub oo_max oo_min oo_clamp of_add of_sub of_max fo_clamp fo_max fo_min ao_sub af_sub").split()])
+TIE_RESOLVE = ["TieResolve." + t for t in (
+    "lp_maybe_resolve_eq lpa_maybe_resolve_eq dim_maybe_resolve_eq lp_resolve_or_zero_eq lpa_resolve_or_zero_eq "
+    "dim_resolve_or_zero_eq lpa_f32_maybe_resolve_eq dim_f32_maybe_resolve_eq size_dim_maybe_resolve_eq "
+    "size_lp_resolve_or_zero_eq rect_lp_opt_resolve_or_zero_eq rect_lpa_opt_resolve_or_zero_eq "
+    "rect_lp_size_resolve_or_zero_eq rect_lpa_size_resolve_or_zero_eq").split()]
+TIE_GRID = ["TieGrid." + t for t in (
+    "into_origin_zero_line_eq oz_add_eq oz_sub_eq implied_negative_eq implied_positive_eq u16_then_usize track_counts_len_eq "
+    "implicit_start_line_eq implicit_end_line_eq oz_line_to_next_track_eq track_to_prev_oz_line_eq "
+    "into_origin_zero_placement_eq into_origin_zero_eq indefinite_span_eq is_definite_oz_eq is_definite_raw_eq "
+    "resolve_definite_grid_lines_eq resolve_indefinite_grid_tracks_eq").split()]
+TIE_TRUSTED = ("tier T: Generated/{Cache,AvailableSpace,LayoutTypes,Geometry,Sys,MaybeMath,Resolve,GridCoords}.lean are translated from the Rust "
+               "source on every run (verif/extract, typed syn-based translator, my code); Props/Tie*.lean prove each generated "
+               "definition equal to the hand-written model definition for every [Num α]; style lengths are translated against the "
+               "abstract LP/LPA inductives (tag ↦ constructor, justified by C18) with the calc arm dropped; grid integer code is translated "
+               "into the Outcome monad with every arithmetic operation and cast checked (same convention as Model/GridPlacement.lean)")
+
+
+def _add_tie(pid, module, theorems):
+    c = PROPS[pid]
+    c["modules"] = list(c["modules"]) + [module]
+    c["theorems"] = list(c["theorems"]) + [t for t in theorems if t not in c["theorems"]]
+    if TIE_TRUSTED not in c.get("trusted_base", []):
+        c["trusted_base"] = list(c.get("trusted_base", [])) + [TIE_TRUSTED]
+
+
+for _pid in ("C02", "C01", "C17"):
+    _add_tie(_pid, "TaffyVerif.Props.TieCache", TIE_CACHE)
+for _pid in ("C10", "C11", "C19", "C04", "C12"):
+    _add_tie(_pid, "TaffyVerif.Props.TieLayout", TIE_LAYOUT)
+    _add_tie(_pid, "TaffyVerif.Props.TieMaybeMath", TIE_MAYBEMATH)
+    _add_tie(_pid, "TaffyVerif.Props.TieResolve", TIE_RESOLVE)
+for _pid in ("C08", "C03"):
+    _add_tie(_pid, "TaffyVerif.Props.TieGrid", TIE_GRID)
+
 HOOK_COMMITS = [
     "5207efe",
     "79decb2",
